@@ -18,7 +18,8 @@
 (*   env    : sequence of token classes (values of td.environment)         *)
 (*   omp    : td.threading_type = OpenMP                                   *)
 (*   gpr    : GPUs per rank (rank r is assigned GPUs r*gpr .. r*gpr+gpr-1) *)
-(*   out    : "default" | "rel" | "abs"  (td.stdout / td.stderr)           *)
+(*   out, err : "default" | "rel" | "abs": td.stdout / td.stderr unset, a  *)
+(*            relative name, an absolute path - independently of each other *)
 (***************************************************************************)
 EXTENDS Integers, Sequences, FiniteSets
 
@@ -81,12 +82,19 @@ FirstNonZero(codes, i) ==
   ELSE IF codes[i] # 0 THEN codes[i] ELSE FirstNonZero(codes, i + 1)
 LauncherRet(codes) == FirstNonZero(codes, 1)
 
+\* the file that receives what the executable writes to a stream ("out" | "err"):
+\* an absolute path as given, a relative name inside the task sandbox, and
+\* <uid>.out / <uid>.err in the task sandbox when the description names nothing
+FileOf(kind, stream) ==
+  [dir  |-> IF kind = "abs" THEN "as-given" ELSE "sandbox",
+   name |-> IF kind = "default" THEN "uid." \o stream ELSE "custom"]
+
 \* the launch script around it
 LaunchRun(c, F, xrc) ==
   LET prel == RunCmds("pre_launch", GSeq(c.prel), 1, L, F) IN
   IF prel.failed
   THEN [ran |-> prel.ran, launched |-> FALSE, code |-> FailCode, why |-> "pre",
-        ranks |-> <<>>]
+        ranks |-> <<>>, out |-> FileOf(c.out, "out"), err |-> FileOf(c.err, "err")]
   ELSE LET rr    == [i \in 1 .. c.ranks |-> RankRun(c, i - 1, F, xrc)]
            lret  == LauncherRet([i \in 1 .. c.ranks |-> rr[i].code])
            postl == RunCmds("post_launch", GSeq(c.postl), 1, L, F)
@@ -96,7 +104,9 @@ LaunchRun(c, F, xrc) ==
             why      |-> IF postl.failed THEN "post"
                          ELSE IF \A i \in 1 .. c.ranks : rr[i].why = "exec" THEN "exec"
                          ELSE "rank",
-            ranks    |-> rr]
+            ranks    |-> rr,
+            out      |-> FileOf(c.out, "out"),
+            err      |-> FileOf(c.err, "err")]
 
 \* what the executable of rank r sees besides argv / environment
 GpusOf(c, r) == [j \in 1 .. c.gpr |-> r * c.gpr + (j - 1)]
